@@ -175,6 +175,18 @@ class AutoSerialize:
         return val
 
     @staticmethod
+    def _restore_numpy_rng(subgrp: zarr.Group):
+        """Recreate a NumPy random generator of the saved bit-generator type (fresh state)."""
+        import numpy.random as npr
+
+        bit_generator_type = subgrp.attrs.get("_bit_generator_type", "PCG64")
+        if bit_generator_type in ("PCG64", "MT19937", "Philox", "SFC64"):
+            bit_gen = getattr(npr, cast(str, bit_generator_type))()
+        else:
+            bit_gen = npr.PCG64()
+        return npr.Generator(bit_gen)
+
+    @staticmethod
     def _is_autoserialize_instance(value: Any) -> bool:
         """Return True if value behaves like an AutoSerialize instance, even across autoreloads."""
         if isinstance(value, AutoSerialize):
@@ -950,6 +962,8 @@ class AutoSerialize:
                             else:
                                 # Skip unknown logger types in containers
                                 continue
+                        elif subgroup.attrs.get("_numpy_rng"):
+                            items.append(AutoSerialize._restore_numpy_rng(subgroup))
                         else:
                             raise ValueError(
                                 f"Unknown group structure at key '{key}' in {group.path}"
@@ -1065,6 +1079,8 @@ class AutoSerialize:
                         else:
                             # Skip unknown logger types in containers
                             continue
+                    elif subgroup.attrs.get("_numpy_rng"):
+                        items.append(AutoSerialize._restore_numpy_rng(subgroup))
                     else:
                         raise ValueError(f"Unknown group structure at key '{key}' in {group.path}")
                 else:
@@ -1155,6 +1171,8 @@ class AutoSerialize:
                     else:
                         # Skip unknown logger types in containers
                         continue
+                elif subgroup.attrs.get("_numpy_rng"):
+                    result[key] = AutoSerialize._restore_numpy_rng(subgroup)
                 else:
                     raise ValueError(f"Unknown group structure at key '{key}' in {group.path}")
 
